@@ -56,9 +56,13 @@ def rules(ctx):
     rm = P.func('PCBO.remove_ancilla_from_solution')
     ok, why = False, "filter not recognised"
     for n in ast.walk(rm.node):
-        if isinstance(n, ast.Compare) and len(n.ops) == 1 and isinstance(n.comparators[0], ast.Constant):
-            lit = n.comparators[0].value
-            left = n.left
+        if isinstance(n, ast.Compare) and len(n.ops) == 1 and (isinstance(n.comparators[0], ast.Constant) or
+                                                                isinstance(n.left, ast.Constant)):
+            # == / != are symmetric: take the literal from whichever side it is on
+            if isinstance(n.comparators[0], ast.Constant):
+                lit, left = n.comparators[0].value, n.left
+            else:
+                lit, left = n.left.value, n.comparators[0]
             if isinstance(left, ast.Subscript) and isinstance(left.slice, ast.Slice) and left.slice.lower is None:
                 ln = const_num(left.slice.upper)
                 keep = isinstance(n.ops[0], ast.NotEq)
